@@ -12,6 +12,7 @@ package vsched
 
 import (
 	"runtime"
+	"sync/atomic"
 	"unsafe"
 )
 
@@ -121,6 +122,7 @@ type Thread struct {
 	PanicVal any
 	PanicStk string
 	isTimer  bool
+	synced   bool
 }
 
 type hchanHdr struct {
@@ -145,9 +147,10 @@ type TraceEv struct {
 }
 
 var (
-	cur      int32 = -1
-	aborting       = true
-	ending   bool
+	cur        int32 = -1
+	aborting         = true
+	abortPhase int32
+	ending     bool
 
 	threads  [MaxT]*Thread
 	nthreads int32
@@ -188,10 +191,29 @@ var (
 	nreg   int32
 )
 
+// tearSync is touched with real atomic read-modify-writes only around teardown and at
+// thread exit. It orders (for the race detector) everything a thread did during the
+// execution before the deferred library code that runs unsynchronised - every shim
+// operation is a no-op then - while the threads are torn down one by one.
+var tearSync int32
+
 //go:norace
 func waitTurn(t *Thread) bool {
-	for cur != t.ID {
-		runtime.Gosched()
+	for {
+		for cur != t.ID {
+			runtime.Gosched()
+		}
+		if aborting && abortPhase == 1 {
+			// phase 1: publish this thread's history, then keep waiting
+			atomic.AddInt32(&tearSync, 1)
+			t.synced = true
+			cur = -1
+			continue
+		}
+		break
+	}
+	if aborting {
+		atomic.AddInt32(&tearSync, 1)
 	}
 	curT = t
 	return !aborting
@@ -677,6 +699,7 @@ func notePanic(t *Thread, r any) {
 
 //go:norace
 func exitHook(t *Thread) {
+	atomic.AddInt32(&tearSync, 1) // the thread's last action: publish its history (see tearSync)
 	t.exited = true
 	t.wk = wNone
 	if aborting {
@@ -969,6 +992,23 @@ func startThread0(t *Thread) { cur = t.ID }
 //go:norace
 func teardown() {
 	aborting = true
+	// phase 1: every live thread publishes its history
+	abortPhase = 1
+	for i := int32(0); i < nthreads; i++ {
+		t := threads[i]
+		if t.exited {
+			continue
+		}
+		cur = t.ID
+		for !t.synced {
+			runtime.Gosched()
+		}
+		for cur != -1 {
+			runtime.Gosched()
+		}
+	}
+	// phase 2: the threads leave one by one (deferred code runs with no-op shims)
+	abortPhase = 2
 	for i := int32(0); i < nthreads; i++ {
 		t := threads[i]
 		if t.exited {
